@@ -148,3 +148,14 @@ PROPS['C13'] = dict(
     prop_modules=['Vise.Props.C13'], lean_targets=['Vise.Props.C13'], suites=['pg'],
     trusted=PG_TRUSTED, assumptions=["a handle that has been used with Start stays in explicit-transaction mode after Stop (Stop does not clear it; TestPostgresTxStartStop relies on that), so the single-operation clauses are stated for handles never put into that mode"],
 )
+
+PROPS['C16'] = dict(
+    prop_modules=['Vise.Props.C16'], lean_targets=['Vise.Props.C16'], suites=['asm'],
+    trusted=[
+        "participle v2.0.0 (third-party lexer/parser generator) is modelled by hand for THIS grammar: first-matching-rule lexer, struct-tag grammar with PeekAny semantics for elided tokens, greedy optional groups, strconv.ParseUint base 0 for numeric captures; the rule patterns, struct tags and elided token types are regenerated from asm/asm.go and pinned by #guard, so a grammar edit breaks the build; the lexer is also compared token by token with a participle lexer built from the rules found in the source",
+        "the independent reading of a source (Vise/AsmSpec.lean on the Lean side, specParse in the harness on the Go side) is transcribed by hand from doc/texinfo/instructions.texi; comment-only, blank-with-spaces and leading blank lines are not documented and are outside it",
+        "dev/asm/main.go (the command line front end and its optional flag preprocessor) is not modelled: without -f it passes the file to asm.Parse unchanged",
+        "participle's MaxIterations (1,000,000 lines) is not modelled",
+    ],
+    assumptions=["the theorem's domain SafeProg: names starting with a lower-case letter or one of _ * . ^ < >, selectors that are the wildcard, such a name, or a canonical decimal below 2^32, numbers below 2^32, batch lines last; everything else documented is covered by the oracle and the known findings"],
+)
